@@ -38,7 +38,11 @@ func handleSetRange(params internal.HandlerFuncParams) ([]byte, error) {
 
 	newStr := params.Command[3]
 
+	// If the key does not exist, create it with the new string as its value.
 	if !keyExists {
+		if err = params.SetValues(params.Context, map[string]interface{}{key: newStr}); err != nil {
+			return nil, err
+		}
 		return []byte(fmt.Sprintf(":%d\r\n", len(newStr))), nil
 	}
 
